@@ -34,7 +34,7 @@ for pid in ids:
         src = "/tmp/wt%s_%s/out/%s" % (rnd, pid, k)
         if not os.path.exists(src + "/patch.diff"):
             continue
-        name = "%s-b-%s" % (pid, k)
+        name = "%s-b-%s" % (pid, k) if rnd == "5" else "%s-b-r%s-%s" % (pid, rnd, k)
         dst = os.path.join(V, "benign", name)
         os.makedirs(dst, exist_ok=True)
         shutil.copy(src + "/patch.diff", dst + "/patch.diff")
